@@ -224,6 +224,21 @@ impl<'a> Gen<'a> {
                 s.writes.push((Binary::from(k), v));
             }
         }
+        // now and then a call that logs hundreds of writes in its frame (and takes them all back again, so that
+        // storage stays small): whether the frame is committed or abandoned, nothing but its net effect remains
+        if self.pct(2) {
+            let n = self.rng.range(70, 120);
+            let t = s.tag;
+            for i in 0..n {
+                s.writes.push((Binary::from(format!("bulk{}-{}", t, i).into_bytes()), Some(Binary::from(vec![b'B']))));
+            }
+            for i in 0..n {
+                s.writes.push((Binary::from(format!("bulk{}-{}", t, i).into_bytes()), None));
+            }
+            if self.pct(50) {
+                s.fail = true;
+            }
+        }
         if self.p.rich_output {
             for _ in 0..self.rng.below(4) {
                 let k = self.attr_key();
@@ -240,8 +255,10 @@ impl<'a> Gen<'a> {
                 }
                 s.events.push(Ev { ty, attrs });
             }
-            s.data = match self.rng.below(8) {
+            s.data = match self.rng.below(9) {
                 0 | 1 => None,
+                // long data: the length prefix of the response encoding needs more than one byte from 128 on
+                8 => Some(Binary::from(vec![b'L'; *self.rng.pick(&[127usize, 128, 129, 255, 256, 300, 16_383, 16_384, 70_000])])),
                 2 => Some(Binary::from(vec![])),
                 // data that itself looks like an encoded execute / instantiate response (as when a contract forwards
                 // the data of a message it dispatched): it is wrapped again like any other data
@@ -347,6 +364,9 @@ impl<'a> Gen<'a> {
                 let mut tos: Vec<String> = self.users.clone();
                 tos.extend(m.st.contracts.keys().cloned());
                 tos.push("not validated by the bank".to_string());
+                // accounts whose names extend / are cut from another account's name (recipients are not validated)
+                tos.push(format!("{}x", self.users[0]));
+                tos.push(self.users[1][..self.users[1].len() - 1].to_string());
                 tos.push(sender.to_string());
                 let to = self.rng.pick(&tos).clone();
                 let to = self.spell(m, to);
